@@ -57,3 +57,22 @@ PROPS["C09"] = {
         {"name": "nt-w64", "world": "W64", "src": "props/C09_nt.c"},
     ],
 }
+
+PROPS["C03"] = {
+    "level": "model_checking",
+    "technique": "explicit-state enumeration of complete tiny elliptic-curve groups (full Cayley tables, every scalar in [-2n-3, 2n+3] for every routine) built with the real ep_* code at 8-bit digits, plus point/scalar alphabet products on every shipped curve, against an affine chord-and-tangent reference on GMP",
+    "level_text": "Complete groups: tiny curves found by reference point counting are installed through the public ep_curve_set_plain/endom API; on ~1000-point curves (prime order, cofactor 2/4 with order-two points, a = -3/0/1/2, GLV) the complete Cayley table is run through every addition/doubling formula (affine, projective, Jacobian) in every operand representation and alias pattern; "
+                  "on 16-bit prime-order curves (plain, GLV, generic a) every scalar in [-2n-3, 2n+3] through every variable-base, fixed-base (basic, single/double comb, w-NAF tables), generator, digit and simultaneous routine, every scalar pair in [-n-2, n+2]^2 for the simultaneous forms, many-point forms with n in {0..4, 9..12, 33}. "
+                  "The six 256-bit curves run a scalar alphabet (0, +-1, n-1, n, n+1, 2n, multiples, 2^k boundaries, longer than n up to 2^1000-1, GLV boundary neighbourhood) against the same reference.",
+    "level_note": "Trusted: GMP-based affine reference (ref_ec.h), harness glue reading points by coordinate flag. Fixed-base tables are only built on tiny curves whose order has the bit length of the field (tiny_exclusion otherwise). W8 RNG never yields a zero blinding factor. Not reached: defects needing a specific 256-bit scalar outside the alphabet with no tiny analogue.",
+    "rule": "cases are (curve, operation group, points, scalars); tiny worlds: complete point lists / scalar ranges by odometer; W64: alphabet products; all cases count as non-trivial (each involves at least one group operation); distinct by 64-bit hash; transitions = individual routine results compared with the reference.",
+    "assumptions": ["reference group law in ref_ec.h", "calls inside RLC_TRY", "DRBG/RNG re-seeded identically before every randomised routine"],
+    "jobs": [
+        {"name": "ep-w8", "world": "W8", "src": "props/C03_ep.c", "share": 0.65},
+        {"name": "ep-w64", "world": "W64", "src": "props/C03_ep.c"},
+        {"name": "ep-w8-jacob", "world": "W8-jacob", "src": "props/C03_ep.c", "tiers": ("thorough",)},
+        {"name": "ep-w8-basic", "world": "W8-basic", "src": "props/C03_ep.c", "tiers": ("thorough",)},
+        {"name": "ep-w64-381", "world": "W64-381", "src": "props/C03_ep.c", "tiers": ("thorough",)},
+        {"name": "ep-w64-255", "world": "W64-255", "src": "props/C03_ep.c", "tiers": ("thorough",)},
+    ],
+}
